@@ -11,6 +11,7 @@ Generated (rewritten only when the content changes, so make does not rebuild nee
                    literal-block class
   ResolverTables.v saphyr/src/scalar.rs / loader.rs literal word lists
   Consts.v         numeric constants the model depends on
+  ParseNode.v      parser.rs parse_node: the node-content `match` (token kind, guard) -> (event kind, next state) as `node_dispatch`
   Dispatch.v       scanner.rs fetch_next_token: the `match c` arms (patterns, guards, actions) -> the decision function `dispatch`
 
 Supported Rust subset: char literals, inclusive char ranges, `== != || && !`, parentheses,
@@ -656,6 +657,107 @@ def gen_dispatch(repo):
     return out
 
 
+# ---------------------------------------------------------------- the parser's node dispatcher
+NODE_TOKENS = {"BlockEntry": "KBlockEntry", "Scalar(..)": "KScalar", "FlowSequenceStart": "KFlowSequenceStart",
+               "FlowMappingStart": "KFlowMappingStart", "BlockSequenceStart": "KBlockSequenceStart",
+               "BlockMappingStart": "KBlockMappingStart"}
+NODE_KINDS = ["KBlockEntry", "KScalar", "KFlowSequenceStart", "KFlowMappingStart", "KBlockSequenceStart", "KBlockMappingStart",
+              "KOther"]
+NODE_GUARDS = {"indentless_sequence": "indentless", "block": "block", "tag.is_some() || anchor_id > 0": "props"}
+
+
+def gen_parse_node(repo):
+    """Parser::parse_node, second `match *self.peek_token()?`: which token (with which guard) starts which kind of node
+    and which state follows.  First matching arm wins, so the arms become one if-chain per token kind."""
+    s = strip_comments(read(os.path.join(repo, "parser/src/parser.rs")))
+    m = re.search(r"fn parse_node<'a>\(&mut self, block: bool, indentless_sequence: bool\) -> ParseResult<'a>", s)
+    if not m:
+        raise TranslateError("parse_node not found")
+    body = s[m.end():]
+    heads = [x.start() for x in re.finditer(r"match \*self\.peek_token\(\)\? \{", body)]
+    if len(heads) < 2:
+        raise TranslateError("parse_node: the two `match *self.peek_token()?` not found")
+    i = body.index("{", heads[1]) + 1
+    depth, j = 1, i
+    while depth:
+        depth += body[j] == "{"
+        depth -= body[j] == "}"
+        j += 1
+    src = body[i:j - 1]
+    arms = []
+    k = 0
+    while True:
+        mm = re.match(r"\s*Token\(\s*(\w+)\s*,\s*(TokenType::(\w+(?:\(\.\.\))?)|_)\s*\)\s*(?:if ([^=]+?))?\s*=>\s*", src[k:])
+        if not mm:
+            if src[k:].strip():
+                raise TranslateError("parse_node: arm at %r" % src[k:k + 60])
+            break
+        k += len(mm.group(0))
+        tok = mm.group(3) if mm.group(3) else "_"
+        guard = mm.group(4).strip() if mm.group(4) else None
+        if src[k] == "{":
+            d, e = 1, k + 1
+            while d:
+                d += src[e] == "{"
+                d -= src[e] == "}"
+                e += 1
+            action = src[k + 1:e - 1]
+            k = e
+        else:
+            d, e = 0, k
+            while e < len(src) and not (src[e] == "," and d == 0):
+                d += src[e] in "({["
+                d -= src[e] in ")}]"
+                e += 1
+            action = src[k:e]
+            k = e
+        mm = re.match(r"\s*,", src[k:])
+        if mm:
+            k += len(mm.group(0))
+        a = " ".join(action.split())
+        st = re.search(r"self\.state = State::(\w+);", a)
+        if st and "Event::SequenceStart(anchor_id, tag)" in a:
+            act = "NSeq S%s" % st.group(1)
+        elif st and "Event::MappingStart(anchor_id, tag)" in a:
+            act = "NMap S%s" % st.group(1)
+        elif "self.pop_state();" in a and "Event::Scalar(v, style, anchor_id, tag)" in a and "self.fetch_token()" in a:
+            act = "NScalar"
+        elif "self.pop_state();" in a and "Event::empty_scalar_with_anchor(anchor_id, tag)" in a:
+            act = "NEmpty"
+        elif a.startswith("Err(ScanError::new_str(") and "did not find expected node content" in a:
+            act = "NError"
+        else:
+            raise TranslateError("parse_node: action %r" % a[:100])
+        if tok != "_" and tok not in NODE_TOKENS:
+            raise TranslateError("parse_node: token pattern %r" % tok)
+        if guard is not None and guard not in NODE_GUARDS:
+            raise TranslateError("parse_node: guard %r" % guard)
+        arms.append((tok, guard, act))
+    if not arms or arms[-1][:2] != ("_", None):
+        raise TranslateError("parse_node: the last arm must be the unguarded wildcard")
+    out = HEADER % "parser/src/parser.rs (Parser::parse_node, the node-content `match`)"
+    out += "Require Import Parser.\n"
+    out += "Inductive nkind := %s.\n" % " | ".join(NODE_KINDS)
+    out += "Inductive nact := NSeq (next : pstate) | NMap (next : pstate) | NScalar | NEmpty | NError.\n\n"
+    out += ("(* k: kind of the next token; block, indentless: the two parameters of parse_node; props: a tag or an anchor\n"
+            "   has been read in front of the node *)\n")
+    out += "Definition node_dispatch (k : nkind) (block indentless props : bool) : nact :=\n  match k with\n"
+    for kind in NODE_KINDS:
+        chain = []
+        for tok, guard, act in arms:
+            if tok == "_" or NODE_TOKENS[tok] == kind:
+                chain.append((NODE_GUARDS[guard] if guard else None, act))
+                if guard is None:
+                    break
+        txt = ""
+        for g, act in chain[:-1]:
+            txt += "if %s then %s else " % (g, act)
+        txt += chain[-1][1]
+        out += "  | %s => %s\n" % (kind, txt)
+    out += "  end.\n"
+    return out
+
+
 def gen_consts(repo):
     out = HEADER % "parser/src/input/buffered.rs, parser/src/scanner.rs, saphyr/src/encoding.rs"
     b = read(os.path.join(repo, "parser/src/input/buffered.rs"))
@@ -699,7 +801,7 @@ def main():
     repo, outdir = sys.argv[1], sys.argv[2]
     os.makedirs(outdir, exist_ok=True)
     gens = [("CharTraits.v", gen_char_traits), ("Escapes.v", gen_escapes), ("EmitterTables.v", gen_emitter),
-            ("ResolverTables.v", gen_resolver), ("Consts.v", gen_consts), ("Dispatch.v", gen_dispatch)]
+            ("ResolverTables.v", gen_resolver), ("Consts.v", gen_consts), ("Dispatch.v", gen_dispatch), ("ParseNode.v", gen_parse_node)]
     rc = 0
     for fname, fn in gens:
         try:
